@@ -3,14 +3,69 @@ C01  Forward byte search returns exactly the first matching position.
 
 Only statements, one-line proofs from the master lemmas, non-vacuity examples and
 `#print axioms`.
+
+How the clauses of the property are covered:
+
+  clause                                                   theorems
+  -------------------------------------------------------  -------------------------------------
+  what "first match" / "none iff absent" mean              `spec_some_iff`, `spec_none_iff`,
+                                                           `needle_iff`
+  vector routine, any lawful vector type, window >= 1 vec  `generic_find`
+    ... instances SSE2 / AVX2 / NEON / wasm simd128        `sse2_one`, `sse2_find`, `avx2_find`,
+                                                           `neon_find`, `simd128_find`
+  SWAR (`arch::all`), every `start`/`end`                  `swar_one`, `swar_multi`, `swar_two`,
+                                                           `swar_three`
+  raw-pointer form `find_raw` of EVERY backend, every
+    window (short, empty, reversed) -> first match          `raw_every_backend`
+    returned pointer inside `[start, end)`, first,
+    `none` iff absent (pointwise reading)                   `raw_pointwise`
+    `None` when `start >= end` (no precondition)            `raw_none_when_start_ge_end`
+  slice form `find` of every backend's searcher             `slice_every_backend`
+  `memchr`/`memchr2`/`memchr3`, every configuration         `memchr_first`, `memchr_pointwise`
+  returned index `< haystack.len()`                         `index_lt_len`
+  the public routine runs the backend `select` picks,
+    which is always an available one                        `dispatch_runs_selected`,
+                                                            `selected_is_available`
+
+In every theorem `= .ok v c'` means: the run returns normally (no out-of-bounds or misaligned
+load, no pointer arithmetic leaving the allocation, no overflow, no failed debug assertion)
+and the returned value is `v`.
 -/
 import MemchrModel.Proofs.MemchrGeneric
 import MemchrModel.Proofs.Sensible
+import MemchrModel.Proofs.Neon
+import MemchrModel.Proofs.Swar
+import MemchrModel.Proofs.MemchrApi
+import MemchrModel.Proofs.PropsBridge2
 import MemchrModel.Generated.Consts
 
 namespace Memchr.Props.C01
 
 open Memchr
+
+/-! ### the specification -/
+
+/-- Meaning of the specification function: `Spec.firstIdx p l = some i` says exactly that `i` is
+an index of `l`, the byte there satisfies `p`, and no smaller index does ("the smallest index
+whose byte equals one of the needles"). -/
+theorem spec_some_iff {p : UInt8 → Bool} {l : List UInt8} {i : Nat} :
+    Spec.firstIdx p l = some i ↔
+      ∃ h : i < l.length, p l[i] = true ∧ ∀ j (hj : j < i), p (l[j]'(Nat.lt_trans hj h)) = false :=
+  Spec.firstIdx_eq_some_iff
+
+/-- Meaning of the specification function: it is `none` exactly when no byte satisfies `p`
+("`None` exactly when no such index exists"). -/
+theorem spec_none_iff {p : UInt8 → Bool} {l : List UInt8} :
+    Spec.firstIdx p l = none ↔ ∀ x ∈ l, p x = false :=
+  Spec.firstIdx_eq_none_iff
+
+/-- The predicate `ns.confirm` used everywhere below is "the byte equals one of the needle
+bytes" (1, 2 or 3 of them for `One`/`Two`/`Three`; duplicates allowed). -/
+theorem needle_iff (ns : Needles) (b : UInt8) :
+    ns.confirm b = true ↔ b = ns.first ∨ b ∈ ns.rest :=
+  Bridge2.confirm_iff ns b
+
+/-! ### the generic vector routine and its instances -/
 
 /-- The generic vector `find_raw` of `One`/`Two`/`Three` (`ns` = 1, 2 or 3 needle bytes, any
 unroll factor) on ANY lawful vector type returns the address of the first byte of
@@ -41,8 +96,212 @@ theorem sse2_one (n1 : UInt8) (m : Mem) (start end_ : Nat) (c : Ctr)
 example : ∃ (m : Mem) (start end_ : Nat), m.base ≤ start ∧ end_ ≤ m.base + m.bytes.size ∧ start + 16 ≤ end_ :=
   ⟨⟨0, 1001, Array.replicate 40 0⟩, 1003, 1041, by decide, by simp, by decide⟩
 
+/-- SSE2 instance (`__m128i`, 16 lanes, 1 mask bit per lane) of `generic_find`: `One`, `Two`
+and `Three`, any unroll factor, windows of at least 16 bytes. -/
+theorem sse2_find (ns : Needles) (u : Nat) (hu : 0 < u) (m : Mem) (start end_ : Nat) (c : Ctr)
+    (hs : m.base ≤ start) (he : end_ ≤ m.base + m.bytes.size) (hlen : start + 16 ≤ end_) :
+    ∃ c', Generic.findRaw Sensible.sse2 ns u hu m start end_ c =
+      .ok ((Spec.firstIdx ns.confirm (m.window start (end_ - start))).map (start + ·)) c' :=
+  generic_find Sensible.sse2 Sensible.lawful_sse2 ns u hu m start end_ c hs he hlen
+
+/-- AVX2 instance (`__m256i`, 32 lanes) of `generic_find`: windows of at least 32 bytes. -/
+theorem avx2_find (ns : Needles) (u : Nat) (hu : 0 < u) (m : Mem) (start end_ : Nat) (c : Ctr)
+    (hs : m.base ≤ start) (he : end_ ≤ m.base + m.bytes.size) (hlen : start + 32 ≤ end_) :
+    ∃ c', Generic.findRaw Sensible.avx2 ns u hu m start end_ c =
+      .ok ((Spec.firstIdx ns.confirm (m.window start (end_ - start))).map (start + ·)) c' :=
+  generic_find Sensible.avx2 Sensible.lawful_avx2 ns u hu m start end_ c hs he hlen
+
+/-- NEON instance (`uint8x16_t`; the mask is the 64-bit `vshrn_n_u16(.., 4)` nibble mask
+`& 0x8888888888888888`: lane `i` owns nibble `i` and is bit `4i + 3`;
+`first_offset = trailing_zeros >> 2`) of `generic_find`: `Neon.lawful` is the proof that the
+NEON mask operations satisfy the laws the generic routine relies on (under the intrinsic
+semantics listed as trusted in `Model/Neon.lean`). Windows of at least 16 bytes. -/
+theorem neon_find (ns : Needles) (u : Nat) (hu : 0 < u) (m : Mem) (start end_ : Nat) (c : Ctr)
+    (hs : m.base ≤ start) (he : end_ ≤ m.base + m.bytes.size) (hlen : start + 16 ≤ end_) :
+    ∃ c', Generic.findRaw Neon.impl ns u hu m start end_ c =
+      .ok ((Spec.firstIdx ns.confirm (m.window start (end_ - start))).map (start + ·)) c' :=
+  generic_find Neon.impl Neon.lawful ns u hu m start end_ c hs he hlen
+
+/-- wasm simd128 instance (`v128`, 16 lanes, `i8x16_bitmask`) of `generic_find`. Windows of at
+least 16 bytes. -/
+theorem simd128_find (ns : Needles) (u : Nat) (hu : 0 < u) (m : Mem) (start end_ : Nat) (c : Ctr)
+    (hs : m.base ≤ start) (he : end_ ≤ m.base + m.bytes.size) (hlen : start + 16 ≤ end_) :
+    ∃ c', Generic.findRaw Sensible.simd128 ns u hu m start end_ c =
+      .ok ((Spec.firstIdx ns.confirm (m.window start (end_ - start))).map (start + ·)) c' :=
+  generic_find Sensible.simd128 Sensible.lawful_simd128 ns u hu m start end_ c hs he hlen
+
+/-- hypotheses of the 32-byte instance are satisfiable: an 80-byte region at an odd base -/
+example : ∃ (m : Mem) (start end_ : Nat), m.base ≤ start ∧ end_ ≤ m.base + m.bytes.size ∧ start + 32 ≤ end_ :=
+  ⟨⟨0, 1001, Array.replicate 80 0⟩, 1003, 1077, by decide, by simp, by decide⟩
+
+/-! ### SWAR (`src/arch/all/memchr.rs`): every `start` / `end` -/
+
+/-- SWAR `One::find_raw` for EVERY pair `start`, `end`: when `start < end` the window must lie
+inside the region (any length >= 1, any alignment, including windows shorter than one `usize`
+word); when `start >= end` there is no precondition at all and the result is `none` (the window
+`m.window start 0` is empty). First match, `none` iff absent, no fault (in particular every
+`*const usize` read is 8-aligned and in bounds). -/
+theorem swar_one (n1 : UInt8) (m : Mem) (start end_ : Nat) (c : Ctr)
+    (hb : start < end_ → m.base ≤ start ∧ end_ ≤ m.base + m.bytes.size) :
+    ∃ c', Swar.One.findRaw n1 m start end_ c =
+      .ok ((Spec.firstIdx (· == n1) (m.window start (end_ - start))).map (start + ·)) c' :=
+  Swar.One.findRaw_correct_eq n1 m start end_ c hb
+
+/-- SWAR `Two::find_raw` / `Three::find_raw` (one shared body; `ns` = the 2 or 3 needle bytes,
+indeed any number) for EVERY pair `start`, `end`, as in `swar_one`. -/
+theorem swar_multi (ns : Needles) (m : Mem) (start end_ : Nat) (c : Ctr)
+    (hb : start < end_ → m.base ≤ start ∧ end_ ≤ m.base + m.bytes.size) :
+    ∃ c', Swar.Multi.findRaw ns m start end_ c =
+      .ok ((Spec.firstIdx ns.confirm (m.window start (end_ - start))).map (start + ·)) c' :=
+  Swar.Multi.findRaw_correct ns m start end_ c hb
+
+/-- SWAR `Two::find_raw` with the predicate written out (`b == n1 || b == n2`; `n1 = n2`
+allowed). -/
+theorem swar_two (n1 n2 : UInt8) (m : Mem) (start end_ : Nat) (c : Ctr)
+    (hb : start < end_ → m.base ≤ start ∧ end_ ≤ m.base + m.bytes.size) :
+    ∃ c', Swar.Multi.findRaw ⟨n1, [n2]⟩ m start end_ c =
+      .ok ((Spec.firstIdx (fun b => b == n1 || b == n2)
+        (m.window start (end_ - start))).map (start + ·)) c' :=
+  Swar.Two.findRaw_correct n1 n2 m start end_ c hb
+
+/-- SWAR `Three::find_raw` with the predicate written out. -/
+theorem swar_three (n1 n2 n3 : UInt8) (m : Mem) (start end_ : Nat) (c : Ctr)
+    (hb : start < end_ → m.base ≤ start ∧ end_ ≤ m.base + m.bytes.size) :
+    ∃ c', Swar.Multi.findRaw ⟨n1, [n2, n3]⟩ m start end_ c =
+      .ok ((Spec.firstIdx (fun b => b == n1 || b == n2 || b == n3)
+        (m.window start (end_ - start))).map (start + ·)) c' :=
+  Swar.Three.findRaw_correct n1 n2 n3 m start end_ c hb
+
+/-- the SWAR precondition is satisfiable by a non-trivial input (a 20-byte region at the odd
+base address 3, window `[4, 22)`), and trivially true when `start >= end` -/
+example : ∃ (m : Mem) (start end_ : Nat), start < end_ ∧
+    (start < end_ → m.base ≤ start ∧ end_ ≤ m.base + m.bytes.size) :=
+  ⟨⟨0, 3, Array.replicate 20 7⟩, 4, 22, by decide, fun _ => ⟨by decide, by simp⟩⟩
+
+/-! ### raw-pointer form, every backend -/
+
+/-- Raw-pointer form, EVERY backend (`b` ranges over SWAR, SSE2, AVX2, NEON, wasm simd128;
+`rawFind b ns false` is `<backend>::memchr::{One,Two,Three}::find_raw` including the wrapper's
+short-haystack routing: byte-by-byte below 16 bytes, SSE2 below 32 bytes on AVX2), for ALL
+`start`, `end` with `[start, end)` inside the region — in particular `start >= end` (then the
+window `m.window start 0` is empty and the value is `none`) and windows shorter than a
+vector: the result is the address of the first needle byte, `none` iff there is none. -/
+theorem raw_every_backend (b : Api.Backend) (ns : Needles) (m : Mem) (start end_ : Nat) (c : Ctr)
+    (hs : m.base ≤ start) (he : end_ ≤ m.base + m.bytes.size) :
+    ∃ c', Api.rawFind b ns false m start end_ c =
+      .ok ((Spec.firstIdx ns.confirm (m.window start (end_ - start))).map (start + ·)) c' :=
+  Api.C01_raw b ns m start end_ c hs he
+
+/-- The same read pointwise, clause by clause, with no specification function: for every backend
+`find_raw` returns normally with some `r` such that
+* `r = none` exactly when no address of `[start, end)` holds a needle byte;
+* a returned pointer `a` lies inside `[start, end)`, holds a needle byte, and no earlier address
+  of the window does. -/
+theorem raw_pointwise (b : Api.Backend) (ns : Needles) (m : Mem) (start end_ : Nat) (c : Ctr)
+    (hs : m.base ≤ start) (he : end_ ≤ m.base + m.bytes.size) :
+    ∃ r c', Api.rawFind b ns false m start end_ c = .ok r c' ∧
+      (r = none ↔ ∀ a, start ≤ a → a < end_ → ns.confirm (m.byteAt a) = false) ∧
+      (∀ a, r = some a → start ≤ a ∧ a < end_ ∧ ns.confirm (m.byteAt a) = true ∧
+        ∀ a', start ≤ a' → a' < a → ns.confirm (m.byteAt a') = false) :=
+  Bridge2.rawFind_first_pointwise b ns m start end_ c hs he
+
+/-- "and return None when start >= end": for every backend, with NO hypothesis on the pointers
+(they may be dangling or outside every region), `find_raw` returns `none`, takes no step and
+performs no load (the counters `c` are returned unchanged). -/
+theorem raw_none_when_start_ge_end (b : Api.Backend) (ns : Needles) (m : Mem) (start end_ : Nat)
+    (c : Ctr) (h : start ≥ end_) : Api.rawFind b ns false m start end_ c = .ok none c :=
+  Api.rawFind_reversed b ns false m start end_ c h
+
+/-- hypotheses are satisfiable: a 40-byte region at an odd base address, a 5-byte window (shorter
+than every vector) -/
+example : ∃ (m : Mem) (start end_ : Nat), m.base ≤ start ∧ end_ ≤ m.base + m.bytes.size ∧
+    start < end_ :=
+  ⟨⟨0, 1001, Array.replicate 40 0⟩, 1003, 1008, by decide, by simp, by decide⟩
+
+/-! ### slice forms -/
+
+/-- Slice form `find(haystack)` of every backend's `One`/`Two`/`Three` (through
+`search_slice_with_raw`: pointer -> index conversion included): the smallest index of the slice
+holding a needle byte, `none` iff there is none, for every valid slice (every length from 0,
+every alignment). -/
+theorem slice_every_backend (b : Api.Backend) (ns : Needles) (hay : Slice) (hv : hay.Valid)
+    (c : Ctr) :
+    ∃ c', Api.sliceFind b ns false hay c = .ok (Spec.firstIdx ns.confirm hay.toList) c' :=
+  Bridge2.sliceFind_fwd b ns hay hv c
+
+/-- `memchr` / `memchr2` / `memchr3` (`ns` = the 1, 2 or 3 needle bytes) under EVERY build / CPU
+configuration `cfg` (target architecture, compile-time target features, `std`, run-time AVX2
+detection, forced-unavailable hook): the smallest index of the haystack holding a needle byte,
+`none` iff there is none. -/
+theorem memchr_first (cfg : Api.Cfg) (ns : Needles) (hay : Slice) (hv : hay.Valid) (c : Ctr) :
+    ∃ c', Api.memchr cfg ns false hay c = .ok (Spec.firstIdx ns.confirm hay.toList) c' :=
+  Bridge2.memchr_fwd cfg ns hay hv c
+
+/-- "a returned index is always less than haystack.len()": whatever the predicate and the
+bytes, an index produced by the specification (hence, by `memchr_first` and
+`slice_every_backend`, by every routine) is inside the haystack. -/
+theorem index_lt_len (ns : Needles) (hay : Slice) (i : Nat)
+    (h : Spec.firstIdx ns.confirm hay.toList = some i) : i < hay.len := by
+  simpa using Bridge2.firstIdx_lt h
+
+/-- `memchr` & co. read pointwise, clause by clause (`hay.getD i` is byte `i` of the slice):
+the call returns normally with some `r` such that
+* `r = none` exactly when no index of the haystack holds a needle byte;
+* a returned index `i` is `< hay.len`, holds a needle byte, and no smaller index does. -/
+theorem memchr_pointwise (cfg : Api.Cfg) (ns : Needles) (hay : Slice) (hv : hay.Valid) (c : Ctr) :
+    ∃ r c', Api.memchr cfg ns false hay c = .ok r c' ∧
+      (r = none ↔ ∀ i, i < hay.len → ns.confirm (hay.getD i) = false) ∧
+      (∀ i, r = some i → i < hay.len ∧ ns.confirm (hay.getD i) = true ∧
+        ∀ j, j < i → ns.confirm (hay.getD j) = false) :=
+  Bridge2.memchr_fwd_pointwise cfg ns hay hv c
+
+/-- a valid, non-trivial slice: bytes 3..13 of a 40-byte region at an odd address -/
+example : (⟨⟨0, 1001, Array.replicate 40 0⟩, 3, 10⟩ : Slice).Valid := by
+  simp [Slice.Valid]
+
+/-! ### dispatch -/
+
+/-- Dispatch: the public raw routine of a configuration (the `cfg` chain of `src/memchr.rs`,
+`detect` of `unsafe_ifunc!` on x86_64, `defraw!` with its `debug_assert!(is_available())` on
+aarch64 / wasm32) IS the raw routine of the backend `Api.select cfg`; the debug assertion never
+fires. (`rev = false`: `memchr*_raw`; `rev = true`: `memrchr*_raw`.) -/
+theorem dispatch_runs_selected (cfg : Api.Cfg) (ns : Needles) (rev : Bool) (m : Mem)
+    (start end_ : Nat) :
+    Api.memchrRaw cfg ns rev m start end_ = Api.rawFind (Api.select cfg) ns rev m start end_ :=
+  Api.memchrRaw_eq_select cfg ns rev m start end_
+
+/-- Dispatch never selects a vector backend whose `is_available()` is false for the
+configuration, nor one of another architecture (the `#[target_feature]` safety obligation of the
+`unsafe` calls in `unsafe_ifunc!` / `defraw!`). -/
+theorem selected_is_available (cfg : Api.Cfg) :
+    (Api.select cfg = .avx2 → cfg.arch = .x86_64 ∧ Api.avx2Available cfg = true) ∧
+    (Api.select cfg = .sse2 → cfg.arch = .x86_64 ∧ Api.sse2Available cfg = true) ∧
+    (Api.select cfg = .neon → cfg.arch = .aarch64 ∧ Api.neonAvailable cfg = true) ∧
+    (Api.select cfg = .simd128 → cfg.arch = .wasm32simd128 ∧ Api.simd128Available cfg = true) :=
+  Api.select_available cfg
+
 end Memchr.Props.C01
 
+#print axioms Memchr.Props.C01.spec_some_iff
+#print axioms Memchr.Props.C01.spec_none_iff
+#print axioms Memchr.Props.C01.needle_iff
 #print axioms Memchr.Props.C01.generic_find
 #print axioms Memchr.Props.C01.unroll_pos
 #print axioms Memchr.Props.C01.sse2_one
+#print axioms Memchr.Props.C01.sse2_find
+#print axioms Memchr.Props.C01.avx2_find
+#print axioms Memchr.Props.C01.neon_find
+#print axioms Memchr.Props.C01.simd128_find
+#print axioms Memchr.Props.C01.swar_one
+#print axioms Memchr.Props.C01.swar_multi
+#print axioms Memchr.Props.C01.swar_two
+#print axioms Memchr.Props.C01.swar_three
+#print axioms Memchr.Props.C01.raw_every_backend
+#print axioms Memchr.Props.C01.raw_pointwise
+#print axioms Memchr.Props.C01.raw_none_when_start_ge_end
+#print axioms Memchr.Props.C01.slice_every_backend
+#print axioms Memchr.Props.C01.memchr_first
+#print axioms Memchr.Props.C01.index_lt_len
+#print axioms Memchr.Props.C01.memchr_pointwise
+#print axioms Memchr.Props.C01.dispatch_runs_selected
+#print axioms Memchr.Props.C01.selected_is_available
